@@ -3,6 +3,7 @@ import P2sh.Driver.Enc
 import P2sh.Driver.OpsDrv
 import P2sh.Driver.HMapDrv
 import P2sh.Driver.LangDrv
+import P2sh.Driver.BuiltinDrv
 open P2sh.Driver
 
 def dispatch (line : String) : String :=
@@ -16,6 +17,7 @@ def dispatch (line : String) : String :=
     | "un" => OpsDrv.runUn args
     | "eqhash" => OpsDrv.runEqHash args
     | "hmap" => HMapDrv.run args
+    | "builtin" => BuiltinDrv.run args
     | _ => s!"bad-op {op}"
 
 partial def loop (h : IO.FS.Stream) (out : IO.FS.Stream) : IO Unit := do
